@@ -469,9 +469,10 @@ reneg_case(long long seed, long idx)
 {
 	sess s;
 	vf_rng r;
-	int kind, chunk, who, n_reneg, k;
+	int kind, chunk, who, n_reneg, k, legacy;
 	char what[300];
 	vf_rng_init(&r, (uint64_t)seed, (uint64_t)idx * 3 + 4);
+	legacy = (int)((idx / 7 / NMODES) & 1);   /* kind 2 only: instead of the option flag, the refusing engine is in the state it has after a hello without renegotiation_info (reneg = 1: peer without RFC 5746) */
 	kind = (int)(idx % 7);      /* 6: rogue peer (saved Finished values tampered on one side); 0,1: quiescent; 2: NO_RENEGOTIATION on the receiving side; 3: data in flight; 4: renegotiate() preconditions; 5: three in a row */
 	chunk = (int)vf_below(&r, 5);
 	who = (int)vf_below(&r, 2);
@@ -479,7 +480,7 @@ reneg_case(long long seed, long idx)
 	RS = &s;
 	{
 		uint32_t cf = 0, sf = 0;
-		if (kind == 2) { if (who == 0) sf = BR_OPT_NO_RENEGOTIATION; else cf = BR_OPT_NO_RENEGOTIATION; }
+		if (kind == 2 && !legacy) { if (who == 0) sf = BR_OPT_NO_RENEGOTIATION; else cf = BR_OPT_NO_RENEGOTIATION; }
 		if (!sess_start(&s, &r, idx / 7, chunk, cf, sf)) { TP_VIOL("setup", "handshake failed"); sess_end(&s); return; }
 	}
 	/* note: the Finished of the first handshake passed the monitor before on_hs was set; attach from the start instead */
@@ -490,7 +491,7 @@ reneg_case(long long seed, long idx)
 	{
 		uint32_t cf = 0, sf = 0;
 		int layout_c, layout_s;
-		if (kind == 2) { if (who == 0) sf = BR_OPT_NO_RENEGOTIATION; else cf = BR_OPT_NO_RENEGOTIATION; }
+		if (kind == 2 && !legacy) { if (who == 0) sf = BR_OPT_NO_RENEGOTIATION; else cf = BR_OPT_NO_RENEGOTIATION; }
 		layout_c = (int)vf_below(&r, 3); layout_s = (int)vf_below(&r, 3);
 		s.si = tp_suite_find(modes[(idx / 7) % NMODES]);
 		s.version = s.si->tls12only ? 0x0303 : 0x0301 + (unsigned)(((idx / 7) / NMODES) % 3);
@@ -514,8 +515,14 @@ reneg_case(long long seed, long idx)
 		s.p.s.tx_key = s.pm.m.key[1]; s.p.s.rx_key = s.pm.m.key[0];
 		if (!tp_handshake(&s.p, 2000000)) { TP_VIOL("setup", "handshake failed"); sess_end(&s); return; }
 	}
-	snprintf(tp_case, sizeof tp_case, "%s reneg idx=%ld kind=%d suite=%s ver=%04x who=%d chunk=%d layouts=%d/%d", base, idx, kind, s.si->name, s.version,
+	snprintf(tp_case, sizeof tp_case, "%s reneg idx=%ld kind=%d%s suite=%s ver=%04x who=%d chunk=%d layouts=%d/%d", base, idx, kind, kind == 2 && legacy ? "(legacy-peer state)" : "", s.si->name, s.version,
 		who, chunk, s.cc.layout, s.sc.layout);
+	if (kind == 2 && legacy) {
+		tp_ep *B = who == 0 ? &s.p.s : &s.p.c;
+		if (B->eng->reneg != 2) TP_VIOL("reneg:status-after-handshake", "engine does not record secure-renegotiation support of a peer that sent renegotiation_info");
+		B->eng->reneg = 1;
+		vf_stat("reneg_legacy_state_cases", 1);
+	}
 	vf_stat("reneg_cases", 1);
 	n_reneg = kind == 5 ? 3 : 1;
 	for (k = 0; k < n_reneg; k ++) {
@@ -575,6 +582,15 @@ reneg_case(long long seed, long idx)
 			tp_ep *B = A == &s.p.c ? &s.p.s : &s.p.c;
 			tp_act_write(B, 40); tp_act_flush(B, 0);
 			while (br_ssl_engine_current_state(B->eng) & BR_SSL_SENDREC) tp_act_sendrec(B, B == &s.p.c ? &s.p.c2s : &s.p.s2c, 100000);
+		}
+		if (kind == 2 && legacy) {
+			/* the engine that saw no proof of RFC 5746 support does not start a renegotiation itself */
+			tp_ep *B = A == &s.p.c ? &s.p.s : &s.p.c;
+			size_t o0 = B->bytes_out;
+			if (tp_act_reneg(B) != 0) TP_VIOL("reneg:started-with-legacy-peer", "br_ssl_engine_renegotiate returned 1 although the peer never proved secure-renegotiation support");
+			tp_settle(&s.p, 100000);
+			if (B->bytes_out != o0 || s.pm.m.rm.cs[0].epoch != epoch0 || s.pm.m.rm.cs[1].epoch != epoch1) TP_VIOL("reneg:started-with-legacy-peer", "a refused renegotiation request put bytes on the wire");
+			vf_stat("reneg_refusals_checked", 1);
 		}
 		rr = tp_act_reneg(A);
 		if (kind == 2 && ((A == &s.p.c && (s.cc.flags & BR_OPT_NO_RENEGOTIATION)) || (A == &s.p.s && (s.sc.flags & BR_OPT_NO_RENEGOTIATION)))) {
